@@ -397,11 +397,11 @@ pub fn run(ctx: &Ctx) {
     ctx.set_rule("keys: all zoo certificates (17 keys x public/secret/locked, primary and subkeys), freshly generated keys of 7 shapes with random creation times, R-wire built RSA keys v3/v4/v6 with several modulus sizes; oracle: fingerprint()/legacy_key_id() on every key packet type and composite == reference (v3 MD5 of n,e magnitudes; v4 SHA-1 over 0x99 framing; v6 SHA-256 over 0x9B framing; key id low/high 64 bits), equal for secret key, public half and re-parsed (binary and armored) copies; embedded values decoded by R-wire (issuer fingerprint / key id subpackets of default signatures and self-signatures, OPS v3/v6, PKESK v3/v6 recipient) equal the reference of the key used; non-trivial = every key; distinct = (key, view)");
     ctx.assume("key packet bodies are taken from rPGP's serialization and de-framed/decoded by the harness; the hash functions are RustCrypto's");
     zoo::warm(zoo::ALL);
-    let n = ctx.tier.pick(1500u64, 40_000);
+    let n = ctx.tier.pick(1500u64, 800_000);
     ctx.group("generated-keys", Source::Random { n, tape_len: 96 }, generated_key_case);
-    let n = ctx.tier.pick(1200u64, 20_000);
+    let n = ctx.tier.pick(1200u64, 400_000);
     ctx.group("zoo-keys-and-embedded-ids", Source::Random { n, tape_len: 96 }, zoo_case);
-    let n = ctx.tier.pick(1500u64, 30_000);
+    let n = ctx.tier.pick(1500u64, 600_000);
     ctx.group("wire-built-keys", Source::Random { n, tape_len: 64 }, wire_key_case);
     let _ = HashAlgorithm::Sha256;
 }
